@@ -250,9 +250,11 @@ def link_loop(ctx, cfg, body, lp, info, role, rule):
             ctx.ob(rule, "%s#position_%s" % (key0, fidx), ok, det, at=lp.nxt.at, cfg=cfg, frozen=False)
     elif role == "untracked-consumer":
         from .tys import tstr
+        from .ownership import elem_of_storage
         needs = [f for f in lp.nxt.facts if f[0] == "b" and f[1][0] == "needs_drop"]
-        ok = bool(needs) and all(f[2] is False for f in needs)
         md_ok = all(b[0] == "local" and tstr(a.local_ty(b[1])).startswith("core::mem::ManuallyDrop<") for b in slice_bases) and bool(slice_bases)
-        ctx.ob(rule, key0 + "#nodrop", ok and md_ok and len(needs) >= len(info["slots"]),
+        elems = [elem_of_storage(a.local_ty(b[1])) for b in slice_bases if b[0] == "local"]
+        ok = bool(elems) and all(e is not None and any(f[2] is False and f[1][1] == tstr(e) for f in needs) for e in elems)
+        ctx.ob(rule, key0 + "#nodrop", ok and md_ok and len(elems) >= len(info["slots"]),
                "loop reads elements without position tracking; entered under needs_drop == false for each of the %d element types read: %s; sources are ManuallyDrop locals: %s" % (len(info["slots"]), ok, md_ok),
                at=lp.nxt.at, cfg=cfg, frozen=False)
